@@ -112,6 +112,9 @@ Print Assumptions C12_build_same_values_cablelabs.
 Theorem C12_build_same_flags_comcast : forall (e : t) (mask : N), cons_comcast e -> flag (canon_comcast e) mask = flag e mask.
 Proof. exact canon_comcast_flags. Qed.
 Print Assumptions C12_build_same_flags_comcast.
+Theorem C12_build_same_flags_cablelabs : forall (e : t) (mask : N), cons_cablelabs e -> flag (canon_cablelabs e) mask = flag e mask.
+Proof. exact canon_cablelabs_flags. Qed.
+Print Assumptions C12_build_same_flags_cablelabs.
 
 (* ---- the setter API itself: a flag setter called with true on a non-empty EBP sets exactly its own flag (mask m) and nothing
    else; with false, or on an empty EBP, it does nothing (the API cannot clear a flag); all eight masks ---- *)
